@@ -59,6 +59,8 @@ func (n c03Node) Source() string {
 		return "\n  "
 	case "comment":
 		return "<!-- note -->"
+	case "txt":
+		return fmt.Sprintf(" ~%d~ ", n.id)
 	case "for0":
 		dir = ` v-for="q in none"`
 	case "for2":
@@ -77,6 +79,7 @@ func (n c03Node) Source() string {
 }
 
 var c03Mark = regexp.MustCompile(`data-m="(\d+)"`)
+var c03MarkT = regexp.MustCompile(`data-m="(\d+)"|~(\d+)~`)
 
 func c03Render(src string, data map[string]any) (string, error) {
 	var buf bytes.Buffer
@@ -212,7 +215,7 @@ func runC03(r *Run) {
 		"non-trivial: chain with >= 2 members, or a numeric zero of a kind other than int, or a non-bool value")
 	rr := r.Rng
 	// ---------- chain shapes ----------
-	kinds := []string{"if", "elseif", "else", "plain", "ws", "comment", "for0", "for2"}
+	kinds := []string{"if", "elseif", "else", "plain", "ws", "comment", "for0", "for2", "txt"}
 	maxLen := 4
 	if r.Thorough() {
 		maxLen = 6
@@ -314,8 +317,18 @@ func runC03(r *Run) {
 			if err != nil {
 				ids = append(ids, A("error:"+err.Error()))
 			}
-			for _, m := range c03Mark.FindAllStringSubmatch(out, -1) {
-				ids = append(ids, A(m[1]))
+			var vis []string
+			for _, n := range nodes {
+				if n.kind == "txt" {
+					vis = append(vis, fmt.Sprint(n.id))
+				}
+			}
+			for _, m := range c03MarkT.FindAllStringSubmatch(out, -1) {
+				if m[1] != "" {
+					ids = append(ids, A(m[1]))
+				} else {
+					ids = append(ids, L(A("t"), A(m[2])))
+				}
 			}
 			deco := "plain"
 			for _, n := range nodes {
@@ -325,7 +338,7 @@ func runC03(r *Run) {
 			}
 			r.Count("placement:" + placement)
 			r.Count("members:" + deco)
-			coq := fmt.Sprintf("CChain %d %s", repeat, coqList(nodes, c03Node.Coq))
+			coq := fmt.Sprintf("CChainT %d [%s] %s", repeat, strings.Join(vis, "; "), coqList(nodes, c03Node.Coq))
 			desc := map[string]any{"template": src, "data": fmt.Sprint(data)}
 			for name, f := range files {
 				desc[name] = string(f.Data)
